@@ -499,7 +499,11 @@ class PyvcExecutor(StmtMixin, Executor):
                 return True
             if nm == "bool" and (isinstance(v, (bool, z3.BoolRef))):
                 return True
-            if nm == "int" and ((isinstance(v, int)) or (isinstance(v, z3.ArithRef) and v.sort() == z3.IntSort())):
+            if nm in ("int", "integer") and ((isinstance(v, int) and not isinstance(v, bool)) or (isinstance(v, z3.ArithRef) and v.sort() == z3.IntSort())):
+                return True
+            if nm == "int" and isinstance(v, bool):
+                return True
+            if nm == "floating" and (isinstance(v, z3.ArithRef) and v.sort() == z3.RealSort()):
                 return True
             if nm == "float" and (isinstance(v, z3.ArithRef) and v.sort() == z3.RealSort()):
                 return True
